@@ -8,6 +8,7 @@ from vlib import refstream as R, watch
 from vlib.targets import Boom, norm_exc
 
 PROPERTY = 'C03'
+EVALUATIONS_KEYS = ['programs', 'incremental_runs']
 LEVEL = 'exploration'
 RULE = ('(a) exhaustive: every well-formed operator sequence of length <=2 (quick) / <=3 (thorough) over 35 parameter-instantiated operators x 5 input '
         'classes (empty, singleton, ints, ints+exception objects, nested lists), consumed by iteration / collect / drain; (b) seeded random programs '
@@ -85,6 +86,11 @@ def gen_cases(tier, seed):
         cases.append({'kind': 'random', 'seed': rng.randrange(1 << 30), 'n_programs': 25})
     for i in range(100 if tier == "quick" else 1200):
         cases.append({'kind': 'incremental', 'seed': rng.randrange(1 << 30), 'n_programs': 6})
+    # (d) a consumer (or source) that stalls for about a polling interval while buffers / look-ahead windows are full:
+    # the meaning of the pipeline must not depend on how long anybody pauses
+    for i in range(28 if tier == 'quick' else 400):
+        cases.append({'kind': 'stalled', 'seed': rng.randrange(1 << 30), 'stall': rng.choice([0.12, 0.25, 1.15, 1.15, 2.2]), 'who': rng.choice(['consumer', 'consumer', 'source']),
+                      'at': rng.choice([1, 2, 5])})
     return cases
 
 
@@ -249,6 +255,53 @@ def run_case(case):
                 sample = {'input': items_desc[:10], 'program': prog, 'mode': mode}
             if len(viol) > 4:
                 break
+    elif case['kind'] == 'stalled':
+        import time as _time
+
+        rng = random.Random(case['seed'])
+        ops = [['map', 'f_tag'], ['buffer', rng.choice([1, 2, 3])], ['buffer', rng.choice([1, 2])], ['parmap', 'f_tag', rng.choice([1, 2]), False, True],
+               ['accumulate', 'acc', 'NOTSET'], ['filter', 'p_even'], ['batch', 3], ['peek', 1]]
+        prog = [rng.choice(ops) for _ in range(rng.randrange(1, 4))]
+        if not any(o[0] in ('buffer', 'parmap') for o in prog):
+            prog.insert(rng.randrange(len(prog) + 1), ['buffer', rng.choice([1, 2])])
+        items_desc = list(range(rng.choice([12, 30])))
+        exp_out, exp_term = run_ref(list(items_desc), prog)
+
+        def slow_source():
+            for i, x in enumerate(items_desc):
+                if case['who'] == 'source' and i == case['at'] + 4:
+                    _time.sleep(case['stall'])
+                yield x
+
+        def consume():
+            st = S.Stream(slow_source())
+            for op in prog:
+                st = R.apply_real(st, op)
+            out = []
+            term = ('END',)
+            try:
+                for z in st:
+                    out.append(norm_exc(z))
+                    if case['who'] == 'consumer' and len(out) == case['at']:
+                        _time.sleep(case['stall'])
+            except Exception as e:  # noqa: BLE001
+                term = ('RAISED', norm_exc(e))
+            return out, term
+
+        try:
+            out, term = watch.run_bounded(consume, BOUND + 5, 'stalled pipeline')
+        except watch.Hang as h:
+            viol.append({'mech': 'pipeline/hang', 'msg': f'{prog!r} with a {case["stall"]}s {case["who"]} stall did not finish', 'stacks': h.stacks})
+            return {'violations': viol, 'obs': obs, 'exit_after': True}
+        obs['programs'] += 1
+        obs['stalled_runs'] = obs.get('stalled_runs', 0) + 1
+        obs['outputs_compared'] += len(exp_out)
+        if out != exp_out or term != exp_term:
+            missing = [x for x in exp_out if x not in out][:5]
+            viol.append({'mech': 'pipeline/differs-from-sequential-meaning', 'msg': f'{"+".join(o[0] for o in prog)} with a {case["stall"]} s {case["who"]} stall after {case["at"]} outputs: '
+                         f'{len(out)} outputs {term!r}, reference {len(exp_out)} {exp_term!r}; missing {missing!r}', 'program': prog})
+        sigs.append(hash(('stalled', repr(prog), case['stall'], case['who'])) & 0xFFFFFFFFFFFF)
+        sample = {'stalled': True, 'program': prog, 'stall_s': case['stall'], 'who': case['who'], 'outputs': len(out)}
     else:  # incremental
         rng = random.Random(case['seed'])
         for _ in range(case['n_programs']):
